@@ -353,6 +353,7 @@ func (c *client) setupRequestChan() chan clientRequest {
 		select {
 		case requests <- cr:
 		case <-c.exiting:
+			vhook("call.exiting", c, cr.req.ID)
 			return clientResponse{}, fmt.Errorf("websocket routine exiting")
 		}
 
@@ -368,6 +369,7 @@ func (c *client) setupRequestChan() chan clientRequest {
 		for {
 			select {
 			case resp = <-cr.ready:
+				vhook("call.recv", c, cr.req.ID, resp.Error != nil)
 				break loop
 			case <-ctxDone: // send cancel request
 				ctxDone = nil
@@ -515,6 +517,7 @@ func (c *client) makeOutChan(ctx context.Context, ftyp reflect.Type, valOut int)
 				log.Errorf("got rpc message with cancelled context: %s", ctx.Err())
 				return
 			}
+			vhook("sink.val", c, val.Elem().Interface())
 
 			select {
 			case incoming <- val:
@@ -605,6 +608,7 @@ func (fn *rpcFunc) handleRpcCall(args []reflect.Value) (results []reflect.Value)
 			return fn.processError(fmt.Errorf("failed to normalize id")) // should probably panic
 		}
 	}
+	vhook("call.start", fn.client, id, fn.name, fn.retry, fn.notify, args)
 
 	var serializedParams json.RawMessage
 
